@@ -1,6 +1,7 @@
 package an
 
 import (
+	"strings"
 	"fmt"
 	"go/constant"
 	"go/token"
@@ -64,6 +65,7 @@ type Exit struct {
 	AfterLoop bool // dominated by the normal exit of a loop of this function
 	Depth     int
 	State     State
+	Site      ssa.Instruction // the call (in the caller) through which this function was entered; nil at depth 0
 }
 
 // State maps objects to contents.
@@ -150,6 +152,8 @@ type Eval struct {
 	errObj      map[ssa.Instruction]*Obj // per read call: what is known about its error on the current path
 	lastRets    []retRec                 // the individual returns of the function evaluated last
 	lkObj       map[ssa.Instruction]*Obj // per word lookup: did it hit on the current path?
+	sites       []ssa.Instruction        // call sites of the module functions being evaluated (innermost last)
+	alts        map[ssa.Instruction]map[*Obj]altContent // per guarded call: object contents on its success / failure return
 	LoopHits    map[ssa.Instruction]bool // per word lookup inside a loop: every path to the back edge passed its hit edge
 }
 
@@ -631,7 +635,7 @@ func (e *Eval) evalBlockIn(fr *frame, b *ssa.BasicBlock, st State) {
 			if lp == nil {
 				lp = fr.blockLp[b]
 			}
-			e.Exits = append(e.Exits, Exit{Fn: fr.fn, Ret: x, Vals: vals, Conds: e.controlling(fr, b), InLoop: lp != nil, AfterLoop: fr.afterLp[b] || e.afterLoop(fr, b), Depth: fr.depth, State: st})
+			e.Exits = append(e.Exits, Exit{Fn: fr.fn, Ret: x, Vals: vals, Conds: e.controlling(fr, b), InLoop: lp != nil, AfterLoop: fr.afterLp[b] || e.afterLoop(fr, b), Depth: fr.depth, State: st, Site: e.curSite()})
 		case *ssa.Panic:
 			e.event("P1", Violated, x, "reachable panic(%v)", e.val(fr, x.X))
 		default:
@@ -647,6 +651,110 @@ func (e *Eval) afterLoop(fr *frame, b *ssa.BasicBlock) bool {
 		}
 	}
 	return false
+}
+
+func (e *Eval) curSite() ssa.Instruction {
+	if n := len(e.sites); n > 0 {
+		return e.sites[n-1]
+	}
+	return nil
+}
+
+// inModuleType: a named type declared in the module under analysis.
+func (e *Eval) inModuleType(t types.Type) bool {
+	n, ok := t.(*types.Named)
+	if !ok || n.Obj().Pkg() == nil {
+		return false
+	}
+	for _, pk := range e.P.Pkgs {
+		if pk.Types == n.Obj().Pkg() {
+			return true
+		}
+	}
+	return false
+}
+
+// customError: the conversion to an interface of a value whose (module) type implements
+// error.  The message is what its Error method returns for this very value (evaluated
+// abstractly); Unwrap giving a sentinel makes it a wrapper of that sentinel; an Is method
+// makes what it matches unknown.
+func (e *Eval) customError(fr *frame, x *ssa.MakeInterface, v AV, st State) (AV, bool) {
+	t := x.X.Type()
+	base := t
+	if p, ok := t.(*types.Pointer); ok {
+		base = p.Elem()
+	}
+	if !e.inModuleType(base) {
+		return nil, false
+	}
+	ms := e.P.SSA.MethodSets.MethodSet(t)
+	var errM, unwrapM, isM *ssa.Function
+	for i := 0; i < ms.Len(); i++ {
+		switch ms.At(i).Obj().Name() {
+		case "Error":
+			errM = e.P.SSA.MethodValue(ms.At(i))
+		case "Unwrap":
+			unwrapM = e.P.SSA.MethodValue(ms.At(i))
+		case "Is", "As":
+			isM = e.P.SSA.MethodValue(ms.At(i))
+		}
+	}
+	if errM == nil || errM.Signature.Params().Len() != 0 || errM.Signature.Results().Len() != 1 {
+		return nil, false
+	}
+	if isM != nil {
+		return ErrV{Kind: ekUnknown, NonNil: true, From: base.String() + " (has an Is/As method)", Site: x}, true
+	}
+	out := ErrV{Kind: ekFresh, Site: x, NonNil: true}
+	if len(errM.Blocks) > 0 && fr.depth < maxDepth-1 {
+		save := len(e.Events)
+		res, _ := e.evalFunc(errM, []AV{v}, nil, st.clone(), fr.depth+1, false)
+		e.Events = e.Events[:save]
+		if len(res) == 1 {
+			if sv, ok := res[0].(StrV); ok {
+				switch sv.Kind {
+				case skConst:
+					out.Format = sv.S
+				case skConcat:
+					for _, p := range sv.Parts {
+						if ps, ok := p.(StrV); ok && ps.Kind == skConst {
+							out.Format += strings.ReplaceAll(ps.S, "%", "%%")
+						} else {
+							out.Format += "%v"
+							out.Args = append(out.Args, p)
+						}
+					}
+				default:
+					out.Format = "%v"
+					out.Args = []AV{sv}
+				}
+			}
+		}
+	}
+	if unwrapM != nil && len(unwrapM.Blocks) > 0 && fr.depth < maxDepth-1 {
+		save := len(e.Events)
+		res, _ := e.evalFunc(unwrapM, []AV{v}, nil, st.clone(), fr.depth+1, false)
+		e.Events = e.Events[:save]
+		if len(res) == 1 {
+			switch w := res[0].(type) {
+			case ErrV:
+				if w.Kind == ekSentinel || w.Kind == ekWrap {
+					out.Kind, out.G = ekWrap, w.G
+				} else if w.Kind != ekNil {
+					return ErrV{Kind: ekUnknown, NonNil: true, From: base.String() + " (Unwrap)", Site: x}, true
+				}
+			default:
+				return ErrV{Kind: ekUnknown, NonNil: true, From: base.String() + " (Unwrap)", Site: x}, true
+			}
+		}
+	}
+	return out, true
+}
+
+// altContent is what an object holds after a call, depending on whether the call failed.
+type altContent struct {
+	ok, err     Content
+	placeholder string
 }
 
 // refineOnEdge: on the edge where an error value was compared with nil, remember the outcome
@@ -678,17 +786,40 @@ func refineOnEdge(fr *frame, st State, cond ssa.Value, bv BoolV, taken bool) Sta
 		o = e.newObj(okCell, ev.Site, "outcome of "+ev.From)
 		e.errObj[ev.Site] = o
 	}
+	e.applyOutcome(n, ev.Site, isNil)
+	return n
+}
+
+// applyOutcome records in n that the fallible call at site succeeded (isNil) or failed, and
+// puts back what depends on it.
+func (e *Eval) applyOutcome(n State, site ssa.Instruction, isNil bool) {
+	if e.errObj == nil {
+		e.errObj = map[ssa.Instruction]*Obj{}
+	}
+	o := e.errObj[site]
+	if o == nil {
+		o = e.newObj(okCell, site, "outcome of call")
+		e.errObj[site] = o
+	}
 	n[o] = CellC{KBool(isNil)}
+	for obj, alt := range e.alts[site] {
+		if cur, ok := n[obj]; ok && cur.String() == alt.placeholder {
+			if isNil {
+				n[obj] = alt.ok
+			} else {
+				n[obj] = alt.err
+			}
+		}
+	}
 	if isNil {
 		for obj, c := range n {
-			if bc, ok := c.(BufC); ok && bc.B.Pending == ev.Site {
+			if bc, ok := c.(BufC); ok && bc.B.Pending == site {
 				b := bc.B
 				b.Pending = nil
 				n[obj] = BufC{b}
 			}
 		}
 	}
-	return n
 }
 
 // errOnPath sharpens an error value with what the current path knows about the call it came from.
@@ -832,7 +963,7 @@ func (e *Eval) relationsAt(b *ssa.BasicBlock) []relation {
 // touched; exact, symbolic and per-iteration values keep their representation).
 func (e *Eval) refinements(fr *frame, b *ssa.BasicBlock) map[ssa.Value]AV {
 	rels := e.relationsAt(b)
-	if len(rels) == 0 {
+	if len(e.ctrlEdges(b)) == 0 {
 		return nil
 	}
 	var over map[ssa.Value]AV
@@ -933,6 +1064,55 @@ func (e *Eval) refinements(fr *frame, b *ssa.BasicBlock) map[ssa.Value]AV {
 		apply(r.X, r.Op, r.Y)
 		apply(r.Y, flipOp(r.Op), r.X)
 	}
+	// n, err := io.ReadFull(r, buf): where err is known to be nil, n == len(buf)
+	for _, c := range e.ctrlEdges(b) {
+		cv := c.If.Cond
+		hold := c.Taken
+		for {
+			u, ok := cv.(*ssa.UnOp)
+			if !ok || u.Op != token.NOT {
+				break
+			}
+			hold = !hold
+			cv = u.X
+		}
+		bo, ok := cv.(*ssa.BinOp)
+		if !ok || (bo.Op != token.EQL && bo.Op != token.NEQ) {
+			continue
+		}
+		var errv ssa.Value
+		switch {
+		case isNilConst(bo.Y):
+			errv = bo.X
+		case isNilConst(bo.X):
+			errv = bo.Y
+		default:
+			continue
+		}
+		if (bo.Op == token.EQL) != hold {
+			continue // the non-nil edge
+		}
+		ex, ok := errv.(*ssa.Extract)
+		if !ok || ex.Index != 1 {
+			continue
+		}
+		call, ok := ex.Tuple.(*ssa.Call)
+		if !ok || calleeName(call) != "io.ReadFull" || len(call.Call.Args) != 2 {
+			continue
+		}
+		buf, ok := e.val(fr, call.Call.Args[1]).(BytesV)
+		if !ok || !buf.LenKnown {
+			continue
+		}
+		for _, ref := range *call.Referrers() {
+			if nx, ok := ref.(*ssa.Extract); ok && nx.Index == 0 {
+				if over == nil {
+					over = map[ssa.Value]AV{}
+				}
+				over[nx] = LinInt(buf.Len)
+			}
+		}
+	}
 	return over
 }
 
@@ -952,6 +1132,27 @@ func (e *Eval) relBound(fr *frame, b *ssa.BasicBlock, idx, base ssa.Value, idxAV
 	below, nonNeg := false, false
 	if bt, ok := idx.Type().Underlying().(*types.Basic); ok && bt.Info()&types.IsUnsigned != 0 {
 		nonNeg = true
+	}
+	if c, isConst := intConst(idx); isConst {
+		// a constant index: some dominating comparison says len(base) > c
+		if c < 0 {
+			return false
+		}
+		for _, r := range e.relationsAt(b) {
+			x, op, y := r.X, r.Op, r.Y
+			if isLenOfBase(y) {
+				x, y, op = y, x, flipOp(op)
+			}
+			if !isLenOfBase(x) {
+				continue
+			}
+			if k, ok := intConst(y); ok {
+				if (op == token.GTR && k >= c) || (op == token.GEQ && k > c) || (op == token.EQL && k > c) {
+					return true
+				}
+			}
+		}
+		return false
 	}
 	switch idxAV.Kind {
 	case ikLin:
@@ -1179,13 +1380,17 @@ func (e *Eval) instr(fr *frame, in ssa.Instruction, st State) {
 			fr.env[x] = e.topOf(x.Type(), "extract")
 		}
 	case *ssa.Convert:
-		fr.env[x] = e.convert(fr, x)
+		fr.env[x] = e.convert(fr, x, st)
 	case *ssa.ChangeType:
 		fr.env[x] = e.val(fr, x.X)
 	case *ssa.ChangeInterface:
 		fr.env[x] = e.val(fr, x.X)
 	case *ssa.MakeInterface:
-		fr.env[x] = e.val(fr, x.X)
+		v := e.val(fr, x.X)
+		if ev, ok := e.customError(fr, x, v, st); ok {
+			v = ev
+		}
+		fr.env[x] = v
 	case *ssa.MakeSlice:
 		fr.env[x] = e.makeSlice(fr, x, st)
 	case *ssa.MakeMap:
@@ -1207,9 +1412,28 @@ func (e *Eval) instr(fr *frame, in ssa.Instruction, st State) {
 	case *ssa.Lookup:
 		fr.env[x] = e.lookup(fr, x, st)
 	case *ssa.FieldAddr:
-		e.escape(fr, st, e.val(fr, x.X), "field address")
+		base := e.val(fr, x.X)
+		if rv, ok := base.(ResV); ok && rv.Kind == "http.Response" {
+			if pt, ok := x.X.Type().Underlying().(*types.Pointer); ok {
+				if stt, ok := pt.Elem().Underlying().(*types.Struct); ok && stt.Field(x.Field).Name() == "Body" {
+					fr.env[x] = PtrV{Ext: ResV{Kind: "http.Body", A: rv.A, Site: rv.Site}}
+					break
+				}
+			}
+		}
+		if p, ok := base.(PtrV); ok && p.O != nil && p.O.Kind == okVec && p.O.Struct {
+			if vc, ok := st[p.O].(VecC); ok && x.Field < len(vc.Elems) {
+				fr.env[x] = PtrV{Elem: &ElemRef{Base: base, Idx: CInt(int64(x.Field))}}
+				break
+			}
+		}
+		e.escape(fr, st, base, "field address")
 		fr.env[x] = TopV{"field address"}
 	case *ssa.Field:
+		if v, ok := e.val(fr, x.X).(VecV); ok && x.Field < len(v.Elems) && v.Elems[x.Field] != nil {
+			fr.env[x] = v.Elems[x.Field]
+			break
+		}
 		fr.env[x] = e.topOf(x.Type(), "field")
 	case *ssa.Store:
 		e.store(fr, x, st)
@@ -1431,6 +1655,17 @@ func (e *Eval) alloc(fr *frame, x *ssa.Alloc, st State) AV {
 		e.setContentFresh(st, o, SBC{})
 		return PtrV{O: o}
 	}
+	if stt, ok := et.Underlying().(*types.Struct); ok && stt.NumFields() <= 64 && e.inModuleType(et) {
+		// a struct of the module: one abstract value per field
+		o := e.newObj(okVec, x, "struct "+et.String())
+		o.Struct = true
+		elems := make([]AV, stt.NumFields())
+		for i := range elems {
+			elems[i] = e.zeroOf(stt.Field(i).Type())
+		}
+		e.setContentFresh(st, o, VecC{elems})
+		return PtrV{O: o}
+	}
 	o := e.newObj(okCell, x, "local "+x.Comment)
 	e.setContentFresh(st, o, CellC{nil})
 	return PtrV{O: o}
@@ -1495,7 +1730,7 @@ func (e *Eval) checkNonNeg(fr *frame, in ssa.Instruction, n IntV, what string) {
 	}
 }
 
-func (e *Eval) convert(fr *frame, x *ssa.Convert) AV {
+func (e *Eval) convert(fr *frame, x *ssa.Convert, st State) AV {
 	a := e.val(fr, x.X)
 	from, to := x.X.Type().Underlying(), x.Type().Underlying()
 	if isIntType(to) && isIntType(from) {
@@ -1535,12 +1770,23 @@ func (e *Eval) convert(fr *frame, x *ssa.Convert) AV {
 				if s.Kind == skConst {
 					bv.LenKnown, bv.Len = true, K(int64(len(s.S)))
 				}
+				// a fresh, writable copy of the string's bytes: an object, so that a later store
+				// through it is seen by whoever reads it afterwards
+				o := e.newObj(okBuf, x, "[]byte(string)")
+				e.setContentFresh(st, o, BufC{bv})
+				bv.Obj = o
 				return bv
 			}
 		}
 	}
 	if b, ok := a.(BytesV); ok {
 		if bb, ok := to.(*types.Basic); ok && bb.Info()&types.IsString != 0 {
+			// the bytes of a known string, unmodified since, are that string
+			if cur := e.resolveBytes(b, st); cur.Str != nil && cur.Pending == nil {
+				if sv, ok := cur.Str.(StrV); ok {
+					return sv
+				}
+			}
 			return StrV{Kind: skTop, S: "string(" + b.String() + ")"}
 		}
 	}
@@ -1969,6 +2215,8 @@ func (e *Eval) load(fr *frame, x *ssa.UnOp, a AV, st State) AV {
 		return e.topOf(x.Type(), "load through "+a.String())
 	}
 	switch {
+	case p.Ext != nil:
+		return p.Ext
 	case p.G != nil:
 		return e.loadGlobal(fr, p.G, x.Type())
 	case p.O != nil:
@@ -2615,6 +2863,11 @@ func (e *Eval) storeElem(fr *frame, x *ssa.Store, el *ElemRef, v AV, st State) {
 	case BytesV:
 		if b.Obj != nil {
 			e.setContent(fr, st, b.Obj, BufC{BytesV{LenKnown: b.LenKnown, Len: b.Len, Src: "⊤: element written directly"}})
+		}
+		if b.Obj == nil && b.WinOf == nil && b.Param == nil {
+			// a byte slice the evaluation holds only as a value: whoever reads it later would not see this write
+			e.event("U", Undecided, x, "a byte is stored through a slice (%v) that the evaluation does not track as an object: values derived from it afterwards may be stale", b)
+			e.clobber(fr, st, "store through a byte slice that is not tracked", okBuf, okCell)
 		}
 		if b.WinOf != nil {
 			e.setContent(fr, st, b.WinOf, topContent(b.WinOf, "element written through a sub-slice"))
